@@ -275,6 +275,7 @@ GRCF_GHOST = [
 P.verify(fn(
     'sfc_models.models.Model._GenerateRegisteredCashFlows',
     args=dict(self=Ref('Model')),
+    hints={'strip_rich': True},
     # the well-formedness precondition "for every registered flow: wf_flow(source, target) when its turn comes" is stated where it is
     # used, as the ghost assumption at the start of each iteration (see wf_flow)
     requires=[],
